@@ -123,7 +123,11 @@ def check(prog, rep):
         raise AnalysisError("cif.atom_site: no record-assembly block (try ... pdb.ATOM(line)) found")
     reader = {}
     for name in ("ATOM", "HETATM"):
-        reader[name] = {k: v[0] for k, v in record_slices(prog.func("pdb.py", f"{name}.__init__").node).items()}
+        try:
+            from .c07 import probed_columns
+            reader[name] = {k: v[0] for k, v in probed_columns(prog, name).items()}
+        except AnalysisError:
+            reader[name] = {k: v[0] for k, v in record_slices(prog.func("pdb.py", f"{name}.__init__").node).items()}
 
     r1 = rep.rule("R1", "every synthesised field sits exactly in the columns the PDB record classes read", floor=10)
     r2 = rep.rule("R2", "sibling copies of the assembler produce identical layouts", floor=1)
@@ -328,9 +332,40 @@ def rule_flag(prog, rep):
         ok = bool(tests) and U(tests[0].test).replace('"', "'") in ("path.suffix.lower() == '.cif'", "path.suffix.casefold() == '.cif'")
         r.add("dispatch", ok, f"reader chosen by {U(tests[0].test) if tests else '<not found>'}",
               f"pdb2pqr/io.py:{gm.lineno} (get_molecule)")
+    # the two printers: decided as a whole on model lines - with the flag set the output is the output without it minus the TER records, plus
+    # (PQR only) the '#' trailer; the functions that only they call are then part of that verdict
+    printers_modelled = set()
+    try:
+        from .shared import pqr_model, written_file
+        lines = [ln for ln, w in pqr_model(prog)[0] if w is not None] + ["TER\n", "TERRIBLE 1\n", "END\n"]
+        lines.insert(3, "TER\n")
+        for printer in ("print_pqr", "print_pdb"):
+            okp = True
+            for ws in ((False, True) if printer == "print_pqr" else (False,)):
+                plain = written_file(prog, lines, ws, False, printer)
+                cif = written_file(prog, lines, ws, True, printer)
+                want = [ln for ln in plain if ln[0:3] != "TER"] + (["#\n"] if printer == "print_pqr" else [])
+                okp &= cif == want
+            pf = prog.func("main.py", printer).node
+            r.add(f"use|main.py::{printer}", okp, f"{printer} on model lines: with the flag set the output is the output without it, minus the TER records"
+                  + (", plus the '#' trailer" if printer == "print_pqr" else "") + ("" if okp else " - NOT so"), f"pdb2pqr/main.py:{pf.lineno} ({printer})")
+            printers_modelled.add(f"main.py::{printer}")
+        # helpers called only from the printers
+        grew = True
+        while grew:
+            grew = False
+            for key, f in prog.funcs.items():
+                if key in printers_modelled or f.module.rel != "main.py":
+                    continue
+                sites = [k2 for k2, f2 in prog.funcs.items() for c in calls_in(f2.node) if U(c.func).split(".")[-1] == f.node.name]
+                if sites and all(k2 in printers_modelled for k2 in sites):
+                    printers_modelled.add(key)
+                    grew = True
+    except AnalysisError:
+        printers_modelled = set()
     # every load of is_cif
     for key, f in prog.funcs.items():
-        if f.module.rel == "run.py" or (modelled and f.node is gm):  # get_molecule: decided as a whole on the model paths
+        if f.module.rel == "run.py" or (modelled and f.node is gm) or key in printers_modelled:  # decided as a whole on models
             continue
         for n in walk_no_defs(f.node):
             if isinstance(n, ast.Name) and n.id == "is_cif" and isinstance(n.ctx, ast.Load):
